@@ -15,6 +15,7 @@ RULE = (
     "Python operation on the operands' cell lists (plain str -> unformatted cells), len == number of cells, .s == str "
     "operation on .s. Non-trivial: bounds on different runs, any negative bound, or an operand with an empty run."
     ' Operands also carry a history (derived from observed parents, caches and the divides index filled) and come in large sizes (for long strings the bound grid is all run boundaries +-1, the ends and a spread of interior points); plain-str operands may contain a bare ESC or U+009B; repeat counts up to 100, joins of up to 40 items.'
+    " Operands also as instances of a str subclass (one overriding __str__) and of a FmtStr subclass with its own constructor; the result of an earlier + (escape-carrying plain-str operands included) as operand of *, slicing, + and join; complete enumeration of join (<=3 items, 4 separators) and + over degenerate operands (no runs, one empty run, '', one character)."
 )
 ASSUMPTIONS = [
     "for integer indices where str raises IndexError the only demand is that no non-empty result is returned",
